@@ -110,7 +110,11 @@ def run(tier, seed):
             elif pre == '.x':
                 cp['classes'] = ['x']
             ops = [('select', (), 0)] + [('match', sc.path_of[id(e)]) for e in sc.elements[:12]]
-            sc.add(pat, ops)
+            # a caller-supplied default namespace must not change which siblings are COUNTED (only what a type selector means)
+            nsm = None
+            if ('/xml/' in label or '/html5lib/' in label) and rnd.random() < 0.4:
+                nsm = rnd.choice([{'': 'urn:one'}, {'': 'urn:two', 'o': 'urn:one'}, {'': 'http://www.w3.org/1999/xhtml'}, {'': 'urn:none'}])
+            sc.add(pat, ops, namespaces=nsm)
             sc.meta[pat] = [[cp]]
         # keyword forms coincide with their An+B instances
         for kw, eq in ((':first-child', ':nth-child(1)'), (':last-child', ':nth-last-child(1)'),
